@@ -19,9 +19,52 @@ Section W.
   Fixpoint repeat_bytes (b : bytes) (n : nat) : bytes :=
     match n with O => [] | Datatypes.S n' => b ++ repeat_bytes b n' end.
 
-  Definition add_whitespace (indent : nat) (offset : N) : bytes :=
-    if offset =? 0 then [" "%char]
-    else repeat_bytes [lf] (N.to_nat offset) ++ repeat_bytes [" "; " "]%char indent.
+  (* One Writer: the text written so far (reversed) and the flag line_comment_open. *)
+  Definition out := (bytes * bool)%type.
+  Definition empty_out : out := ([], false).
+  Definition push (b : bytes) (o : out) : out := (rev_append b (fst o), snd o).
+  Definition finish (o : out) : bytes := frev (fst o).
+
+  (* writer.rs ends_with_line_comment: does the last line of the text end inside a "//" comment? *)
+  Fixpoint elc_scan (l : bytes) (in_string in_bc : bool) : bool :=
+    match l with
+    | [] => false
+    | c :: tl =>
+        if in_string then
+          if aeq c bs then match tl with _ :: tl' => elc_scan tl' true false | [] => false end
+          else if aeq c dq then elc_scan tl false false
+          else elc_scan tl true false
+        else if in_bc then
+          match tl with
+          | n :: tl' => if aeq c "*" && aeq n "/" then elc_scan tl' false false else elc_scan tl false true
+          | [] => false
+          end
+        else if aeq c dq then elc_scan tl true false
+        else
+          match tl with
+          | n :: tl' =>
+              if aeq c "/" && aeq n "*" then elc_scan tl' false true
+              else if aeq c "/" && aeq n "/" then true
+              else elc_scan tl false false
+          | [] => false
+          end
+    end.
+  Definition ends_with_line_comment (text : bytes) : bool := elc_scan text false false.
+
+  (* Writer::track_line_comment *)
+  Definition after_last_newline (text : bytes) : option bytes :=
+    let '(tail_rev, rest) := span (fun c => negb (aeq c lf)) (frev text) in
+    match rest with [] => None | _ => Some (frev tail_rev) end.
+  Definition track_line_comment (text : bytes) (o : out) : out :=
+    match after_last_newline text with
+    | Some last => (fst o, ends_with_line_comment last)
+    | None => if snd o then o else (fst o, ends_with_line_comment text)
+    end.
+
+  Definition add_whitespace (indent : nat) (offset : N) (o : out) : out :=
+    let offset := if (offset =? 0) && snd o then 1 else offset in
+    if offset =? 0 then push [" "%char] o
+    else (rev_append (repeat_bytes [lf] (N.to_nat offset) ++ repeat_bytes [" "; " "]%char indent) (fst o), false).
 
   (* ---- floats: "{}" / "{:e}" of Rust through the oracle table, selection by magnitude ---- *)
   Fixpoint find_by_bits (tab : list fentry) (bits : N) : option (bytes * bytes) :=
@@ -95,26 +138,30 @@ Section W.
   Fixpoint mem_nat (x : nat) (l : list nat) : bool :=
     match l with [] => false | y :: r => Nat.eqb x y || mem_nat x r end.
 
-  Fixpoint emit_group (indent : nat) (group : list ginfo) (included : list nat) : bytes :=
+  Fixpoint emit_group (indent : nat) (group : list ginfo) (included : list nat) (o : out) : out :=
     match group with
-    | [] => []
+    | [] => o
     | GTag tag incfile _ _ so eo is_block text _ :: r =>
         match incfile with
         | Some f =>
-            if mem_nat f included then emit_group indent r included
-            else add_whitespace indent so ++ bytes_of "/include """ ++ nth f names [] ++ [dq] ++
-                 emit_group indent r (f :: included)
+            if mem_nat f included then emit_group indent r included o
+            else emit_group indent r (f :: included)
+                   (push (bytes_of "/include """ ++ nth f names [] ++ [dq]) (add_whitespace indent so o))
         | None =>
-            add_whitespace indent so ++ (if is_block then bytes_of "/begin " else []) ++ tag ++ text ++
-            (if is_block then add_whitespace indent eo ++ bytes_of "/end " ++ tag else []) ++
-            emit_group indent r included
+            let o1 := track_line_comment text
+                        (push ((if is_block then bytes_of "/begin " else []) ++ tag ++ text) (add_whitespace indent so o)) in
+            let o2 := if is_block then push (bytes_of "/end " ++ tag) (add_whitespace indent eo o1) else o1 in
+            emit_group indent r included o2
         end
     | GComment text is_included _ _ so :: r =>
-        (if is_included then [] else repeat_bytes [lf] (N.to_nat so) ++ text) ++ emit_group indent r included
+        emit_group indent r included
+          (if is_included then o
+           else track_line_comment text
+                  (push text (if so =? 0 then o else (rev_append (repeat_bytes [lf] (N.to_nat so)) (fst o), false))))
     end.
 
-  Definition add_group (indent : nat) (group : list ginfo) : bytes :=
-    emit_group indent (apply_position_restrictions (ssort sort_leb group)) [].
+  Definition add_group (indent : nat) (group : list ginfo) (o : out) : out :=
+    emit_group indent (apply_position_restrictions (ssort sort_leb group)) [] o.
 
   (* ---- GenericIfData::write ---- *)
   Definition gint_ity (variant : string) : ity :=
@@ -128,38 +175,38 @@ Section W.
     | O => []
     | Datatypes.S f =>
         let write_item :=
-          (fix write_item (n : nat) (g : gifd) {struct n} : bytes :=
+          (fix write_item (n : nat) (g : gifd) (o : out) {struct n} : out :=
              match n with
-             | O => []
+             | O => o
              | Datatypes.S n' =>
                  match g with
-                 | GInt variant off v hex => add_whitespace indent off ++ add_integer_text (gint_ity variant) v hex
-                 | GFloat off bits | GDouble off bits => add_whitespace indent off ++ float_text bits
-                 | GString off s => add_whitespace indent off ++ quoted s
-                 | GEnumItem off s => add_whitespace indent off ++ s
-                 | GArray items | GSequence items | GStruct _ _ items => flat_map (write_item n') items
+                 | GInt variant off v hex => push (add_integer_text (gint_ity variant) v hex) (add_whitespace indent off o)
+                 | GFloat off bits | GDouble off bits => push (float_text bits) (add_whitespace indent off o)
+                 | GString off s => push (quoted s) (add_whitespace indent off o)
+                 | GEnumItem off s => push s (add_whitespace indent off o)
+                 | GArray items | GSequence items | GStruct _ _ items => fold_left (fun acc it => write_item n' it acc) items o
                  | GTaggedStruct tg | GTaggedUnion tg =>
                      add_group indent
                        (flat_map (fun kv =>
                           map (fun t => match t with
                                         | GTI inc line uid so eo tag data is_block =>
                                             GTag tag inc uid line so eo is_block (gifd_write f data (Datatypes.S indent)) None
-                                        end) (snd kv)) tg)
-                 | GNone | GBlock _ _ _ => []
+                                        end) (snd kv)) tg) o
+                 | GNone | GBlock _ _ _ => o
                  end
              end) in
-        match g with
-        | GStruct _ _ items | GBlock _ _ items => flat_map (write_item fuel) items
-        | _ => write_item fuel g
-        end
+        finish (match g with
+                | GStruct _ _ items | GBlock _ _ items => fold_left (fun acc it => write_item fuel it acc) items empty_out
+                | _ => write_item fuel g empty_out
+                end)
     end.
 
   (* ---- generic elements ---- *)
-  Definition add_str_raw (indent : nat) (text : bytes) (off : N) : bytes :=
-    (match text with
-     | c :: _ => if is_ws c || (N_of_ascii c =? 11) then [] else add_whitespace indent off
-     | [] => add_whitespace indent off
-     end) ++ text.
+  Definition add_str_raw (indent : nat) (text : bytes) (off : N) (o : out) : out :=
+    push text (match text with
+               | c :: _ => if is_ws c || (N_of_ascii c =? 11) then o else add_whitespace indent off o
+               | [] => add_whitespace indent off o
+               end).
 
   Fixpoint lookup_posr (l : list (string * posr)) (n : string) : option posr :=
     match l with [] => None | (k, v) :: r => if String.eqb k n then Some v else lookup_posr r n end.
@@ -193,13 +240,13 @@ Section W.
     | _ => None
     end.
 
-  Definition write_scalar (indent : nat) (ty : fty) (v : value) : bytes :=
+  Definition write_scalar (indent : nat) (ty : fty) (v : value) (o : out) : out :=
     match ty, v with
-    | FInt t, VScalar (SInt z hex) off => add_whitespace indent off ++ add_integer_text t z hex
-    | (FDouble | FFloat), VScalar (SFloat bits) off => add_whitespace indent off ++ float_text bits
-    | (FIdent | FEnum _), VScalar (SText s) off => add_whitespace indent off ++ s
-    | (FString | FStringMax _), VScalar (SText s) off => add_whitespace indent off ++ quoted s
-    | _, _ => []
+    | FInt t, VScalar (SInt z hex) off => push (add_integer_text t z hex) (add_whitespace indent off o)
+    | (FDouble | FFloat), VScalar (SFloat bits) off => push (float_text bits) (add_whitespace indent off o)
+    | (FIdent | FEnum _), VScalar (SText s) off => push s (add_whitespace indent off o)
+    | (FString | FStringMax _), VScalar (SText s) off => push (quoted s) (add_whitespace indent off o)
+    | _, _ => o
     end.
 
   Definition layout_of (v : value) : layout :=
@@ -212,39 +259,42 @@ Section W.
   Definition comment_info (c : comment) : ginfo :=
     GComment (cm_text c) (cm_included c) (cm_uid c) (cm_line c) (cm_so c).
 
-  Fixpoint write_node (fuel : nat) (v : value) (indent : nat) {struct fuel} : bytes :=
+  (* [write_into fuel v indent o]: the writer [o] of the enclosing element continues with the items of [v]
+     (struct references share the parent's Writer); [write_node] is a stringify call with a fresh Writer *)
+  Fixpoint write_into (fuel : nat) (v : value) (indent : nat) (o : out) {struct fuel} : out :=
     match fuel with
-    | O => []
+    | O => o
     | Datatypes.S f =>
         match v with
-        | VIfData _ (Some g) _ => gifd_write (Datatypes.S fuel) g (indent - 1)
-        | VIfData _ None _ => []
+        | VIfData _ (Some g) _ => push (gifd_write (Datatypes.S fuel) g (indent - 1)) o
+        | VIfData _ None _ => o
         | VNode ty lay fields kids cms =>
             match lookup_ty S ty with
-            | None => []
+            | None => o
             | Some td =>
                 match t_special td with
-                | Some _ =>      (* A2ml: add_str_raw of the text with CRLF -> LF *)
+                | Some _ =>
                     match fields with
-                    | [VScalar (SText s) off] => add_str_raw indent (crlf_to_lf s) off
-                    | _ => []
+                    | [VScalar (SText s) off] => add_str_raw indent (crlf_to_lf s) off o
+                    | _ => o
                     end
                 | None =>
                     let is_block := match t_kind td with KBlock => true | _ => false end in
-                    (fix items (its : list item) (fields : list value) (kids : list (list value)) {struct its} : bytes :=
+                    (fix items (its : list item) (fields : list value) (kids : list (list value)) (o : out) {struct its} : out :=
                        match its with
-                       | [] => []
+                       | [] => o
                        | IField _ ty :: r =>
                            match fields with
                            | fv :: fr =>
-                               (match ty, fv with
-                                | FStruct _, _ => write_node f fv indent
-                                | FArray t _, VList l => flat_map (write_scalar indent t) l
-                                | FSeq (FStruct _) _, VList l => flat_map (fun x => write_node f x indent) l
-                                | FSeq t _, VList l => flat_map (write_scalar indent t) l
-                                | _, _ => write_scalar indent ty fv
-                                end) ++ items r fr kids
-                           | [] => []
+                               items r fr kids
+                                 (match ty, fv with
+                                  | FStruct _, _ => write_into f fv indent o
+                                  | FArray t _, VList l => fold_left (fun acc x => write_scalar indent t x acc) l o
+                                  | FSeq (FStruct _) _, VList l => fold_left (fun acc x => write_into f x indent acc) l o
+                                  | FSeq t _, VList l => fold_left (fun acc x => write_scalar indent t x acc) l o
+                                  | _, _ => write_scalar indent ty fv o
+                                  end)
+                           | [] => o
                            end
                        | ITagged _ _ titems :: r =>
                            let mine := firstn (length titems) kids in
@@ -254,15 +304,20 @@ Section W.
                                        let l := layout_of k in
                                        GTag (bytes_of (ti_tag (fst p))) (l_incfile l) (l_uid l) (l_line l) (l_so l) (l_eo l)
                                             (ti_block (fst p))
-                                            (match l_incfile l with None => write_node f k (Datatypes.S indent) | Some _ => [] end)
+                                            (match l_incfile l with
+                                             | None => finish (write_into f k (Datatypes.S indent) empty_out)
+                                             | Some _ => []
+                                             end)
                                             (pos_restrict k)) (snd p))
                               (combine titems mine) in
                            let group := if is_block then group ++ map comment_info cms else group in
-                           add_group indent group ++ items r fields (skipn (length titems) kids)
-                       end) (t_items td) fields kids
+                           items r fields (skipn (length titems) kids) (add_group indent group o)
+                       end) (t_items td) fields kids o
                 end
             end
-        | _ => []
+        | _ => o
         end
     end.
+
+  Definition write_node (fuel : nat) (v : value) (indent : nat) : bytes := finish (write_into fuel v indent empty_out).
 End W.
